@@ -638,9 +638,20 @@ def exit_paths(ctx):
         meta.append((case, ev))
     outs = ctx.driver.batch(lines) if lines else []
     for (case, ev), o in zip(meta, outs):
-        if o != 'ok':
-            ctx.fail('corr', dict(case, events=ev), f"exit path {case['mode']} is not an execution of the control-flow model: {o}: {ev}",
-                     dict(what='exitpath-model', mode=case['mode']))
+        f = dict(x.split('=', 1) for x in o.split()) if o.startswith('path=') else None
+        if f is None:
+            ctx.fail('corr', dict(case, events=ev), f"driver: {o}", dict(what='exitpath-driver', mode=case['mode']))
+        else:
+            if f['spec'] != 'ok':
+                # the Lean Spec predicate releasedOK (proved of every execution of the control-flow model:
+                # parent_runs_released) on what the implementation did
+                ctx.fail('spec', dict(case, events=ev), f"exit path '{case['mode']}' violates releasedOK (a created segment is not "
+                         f"closed+unlinked, or something still needs the segments after an unlink): {ev}",
+                         dict(what='shm-leak', mode=case['mode']))
+            if f['path'] != 'ok':
+                # not one of the model's own paths, but acceptable (e.g. an extra idempotent pool.terminate()):
+                # the obligation is the predicate, not the path
+                ctx.count('exitpath:outside-the-model-grammar-but-releasedOK' if f['spec'] == 'ok' else 'exitpath:outside-the-model-grammar')
         ctx.count('exitpath')
         ctx.case(dict(case, events=ev), nontrivial_key=('exitpath', case['mode']))
 
